@@ -15,6 +15,8 @@
 
 #include <sys/mman.h>
 #include <sys/wait.h>
+#include <sys/resource.h>
+#include <time.h>
 #include <unistd.h>
 #include <signal.h>
 #include <fcntl.h>
@@ -139,6 +141,12 @@ struct VSolver : mp::BasicSolver {
     AddOptionSynonyms_OutOfLine("o:s ostr", "s");
     set_output_handler(&oh);
     if (collecting) set_error_handler(&eh);
+  }
+  // the stored variables
+  State vars() const {
+    State st; st.n = n; st.d = d; st.s = s; st.a = a; st.f = f; st.m = m;
+    for (auto& kv : w) st.w[kv.first] = kv.second;
+    return st;
   }
   // read every option back through the public accessors
   State read() {
@@ -372,6 +380,24 @@ static void build_alphabet() {
       it.env = it.arg = std::string(names[i]) + tails[t]; add(it, t < 2);
     }
   }
+  // reduced alphabet for the depth-3 family (every option, every name-form class, every item kind, every source text
+  // flavour at least once; values thinned out)
+  static const char* REDUCED[] = {
+    "n=0", "n=-7", "n=42", "n=99999999999", "N=42", "N=0", "n=?", "n 42",
+    "d=1.5", "d=-2e3", "d=1e400", "D=1.5", "D=-2e3", "d=?", "d = 1.5",
+    "s=abc", "s='a b'", "s=\"q'q\"", "s=''", "S=abc", "o:s='a b'", "O:S=abc", "ostr=\"q'q\"", "OSTR=''", "OSTR=abc", "s=?", "s 'a b'",
+    "f", "F", "f=1", "f=?",
+    "alg:m=0", "alg:m=-7", "alg:m=42", "alg:m=99999999999", "ALG:M=42", "meth=0", "METH=-7", "METH=42", "method=42", "method=-7",
+    "Method=0", "meth=?", "meth 42",
+    "pri:1:w=0", "pri:1:w=42", "pri:1:w=99999999999", "pri:2:w=42", "pri:2:w=-7", "pri_1_w=-7", "pri_1_w=42", "PRI:1:W=42",
+    "pri:1:w=?", "pri_1_w 0",
+    "zz=1", "zz", "metho=1", "pri:1:x=1"};
+  for (auto& it : ALPHA) it.reduced = false;
+  for (const char* r : REDUCED) {
+    bool found = false;
+    for (auto& it : ALPHA) if (it.env == r) { it.reduced = found = true; }
+    if (!found) { std::fprintf(stderr, "reduced item %s not in the alphabet\n", r); std::abort(); }
+  }
   for (int i = 0; i < (int)ALPHA.size(); ++i) { FULL.push_back(i); if (ALPHA[i].reduced) RED.push_back(i); }
   if (ALPHA.size() > NBAD) { std::fprintf(stderr, "alphabet too large\n"); std::abort(); }
 }
@@ -429,7 +455,7 @@ static Sources render(const std::vector<Step>& h) {
   return so;
 }
 // run the real parser over the three sources
-static Observed execute(VSolver& sv, const Sources& so, bool collecting) {
+static Observed execute(VSolver& sv, const Sources& so, bool collecting, bool via_getters = true) {
   Observed ob;
   sv.reset_values();
   char* envbuf[2] = {nullptr, nullptr};
@@ -450,8 +476,8 @@ static Observed execute(VSolver& sv, const Sources& so, bool collecting) {
   for (char* p : argv) std::free(p);
   ob.nerr = sv.eh.errs.size();
   if (collecting && ob.nerr) ob.first_err = sv.eh.errs[0];
-  try { ob.st = sv.read(); } catch (const std::exception& e) { ob.threw += std::string(" | read-back threw: ") + e.what(); }
-  (void)collecting;
+  if (via_getters) { try { ob.st = sv.read(); } catch (const std::exception& e) { ob.threw += std::string(" | read-back threw: ") + e.what(); } }
+  else ob.st = sv.vars();
   return ob;
 }
 
@@ -555,7 +581,7 @@ static void run_history(ACtx& cx, const std::vector<Step>& h, bool full_family, 
     if (!collecting && !(ndef > 0 && nopt == 0)) continue;
     shm->handler_mode = mode;
     VSolver& sv = collecting ? cx.reused : cx.reused_throwing;
-    Observed ob = execute(sv, so, collecting);
+    Observed ob = execute(sv, so, collecting, full_family);   // depth-3 family: stored variables; getters on replay
     State exp; bool exp_err = false;
     std::string bad = judge(h, ob, collecting, exp, exp_err);
     bool fresh_checked = false;
@@ -588,7 +614,8 @@ static void run_history(ACtx& cx, const std::vector<Step>& h, bool full_family, 
             bad.substr(bad.rfind(':') + 1) + " option=" + OPTNAME[it.opt] +
             (it.opt == O_N ? " (64-bit accessor, value representable)" : " (int accessor)") + " neither exact nor reported";
     } else if (h.size() == 1) {
-      sig = "history single " + ALPHA[h[0].item].fine() + " from " + SRCNAME[h[0].src] + ": " + bad + (collecting ? "" : " [default handler]");
+      sig = "history single " + ALPHA[h[0].item].coarse() + "/" + ALPHA[h[0].item].form + " from " + SRCNAME[h[0].src] + ": " + bad +
+            (collecting ? "" : " [default handler]");     // separator and value class are in the detail
     } else {
       sig = "history [";
       for (size_t i = 0; i < h.size(); ++i) sig += (i ? ", " : "") + std::string(SRCNAME[h[i].src]) + ":" + ALPHA[h[i].item].coarse();
@@ -647,7 +674,7 @@ static void handle_A_crash(const std::vector<Entry>& entries, long long at, cons
   if (h.size() > 1) for (auto& s : h) if (shm->bad[s.src][s.item]) explained = true;
   if (explained) { COUNT("A_mismatches_explained_by_failing_single_assignment", 1); return; }
   std::string kind = crash_kind(r);
-  std::string key = "KA:" + kind + ":" + (h.size() == 1 ? ALPHA[h[0].item].fine() + SRCNAME[h[0].src] : std::to_string(h.size()));
+  std::string key = "KA:" + kind + ":" + (h.size() == 1 ? ALPHA[h[0].item].coarse() + ALPHA[h[0].item].form + SRCNAME[h[0].src] : std::to_string(h.size()));
   if (!shm_insert(key)) return;
   bool collecting = shm->handler_mode == 0;
   std::vector<std::string> args = {"--oneA", std::to_string(shm->handler_mode)};
@@ -657,7 +684,7 @@ static void handle_A_crash(const std::vector<Entry>& entries, long long at, cons
   std::string fn = top_function(c.err);
   Sources so = render(h);
   std::string sig = "history crash " + kind + " in " + fn + ": ";
-  if (h.size() == 1) sig += "single " + ALPHA[h[0].item].fine() + " from " + SRCNAME[h[0].src];
+  if (h.size() == 1) sig += "single " + ALPHA[h[0].item].coarse() + "/" + ALPHA[h[0].item].form + " from " + SRCNAME[h[0].src];
   else { sig += "["; for (size_t i = 0; i < h.size(); ++i) sig += (i ? ", " : "") + std::string(SRCNAME[h[i].src]) + ":" + ALPHA[h[i].item].coarse(); sig += "]"; }
   violation(sig, history_json(h, so, collecting) + ",\"report\":" + jstr(report_excerpt(c.err)) + "}", replay_json(h, collecting));
 }
@@ -793,9 +820,7 @@ static std::string run_B_one(VSolver& sv, const BItem& it, bool& any_error, bool
   std::string esc = parse_text(sv, it.mode, buf);
   std::free(buf);
   any_error = !sv.eh.errs.empty() || sv.has_errors_;
-  State st; bool readok = true;
-  try { st = sv.read(); } catch (...) { readok = false; }
-  changed = !readok || !(st == State());
+  changed = !(sv.vars() == State());
   return esc;
 }
 static void judge_B(const BItem& it, const std::string& esc, bool any_error, bool changed) {
@@ -1046,13 +1071,15 @@ int main(int argc, char** argv) {
   counters_frozen = true;
 
   selftest();
-  part_A();
-  part_B();
-  part_C();
+  auto cpu = [] { struct timespec a, b; clock_gettime(CLOCK_PROCESS_CPUTIME_ID, &a); struct rusage ru; getrusage(RUSAGE_CHILDREN, &ru);
+                  (void)b; return a.tv_sec + a.tv_nsec * 1e-9 + ru.ru_utime.tv_sec + ru.ru_utime.tv_usec * 1e-6 + ru.ru_stime.tv_sec + ru.ru_stime.tv_usec * 1e-6; };
+  double t0 = cpu(); part_A(); double t1 = cpu(); part_B(); double t2 = cpu(); part_C(); double t3 = cpu();
+  std::fprintf(stderr, "[c11 shard %d] cpu seconds: histories %.1f  byte strings %.1f  switches %.1f\n", S.i, t1 - t0, t2 - t1, t3 - t2);
 
   for (int i = 0; i < ncnames; ++i) R.stats[CNAMES[i]] = shm->counters[i];
   R.stats["A_alphabet_full"] = S.i == 0 ? (long long)FULL.size() : 0;
   R.stats["A_alphabet_reduced"] = S.i == 0 ? (long long)RED.size() : 0;
+  R.stats["B_long_token_strings"] = S.i == 0 ? (long long)EXTRA.size() : 0;
   for (int i = 0; i < SETCAP; ++i) if (shm->set[i][0] == 'C' && shm->set[i][1] == ':') R.classes.insert(shm->set[i] + 2);
   if (S.i == 0) {   // samples are members of the explored space, rendered from the same tables
     R.sample_cap = 8;
